@@ -1698,14 +1698,7 @@ func nameOnlyPredicate(c *core.Ctx, info *types.Info, call *ast.CallExpr, allowe
 	if d == nil || d.Body == nil || c.DeclPkg(d) == nil {
 		return false
 	}
-	// only string parameters (a name), no FileInfo / DirEntry to ask further questions of
-	for _, fl := range d.Type.Params.List {
-		if t := c.DeclPkg(d).TypesInfo.TypeOf(fl.Type); t != nil {
-			if b, ok := t.Underlying().(*types.Basic); !ok || b.Info()&types.IsString == 0 {
-				return false
-			}
-		}
-	}
+	// the helper may receive the name or the FileInfo / DirEntry itself: what it asks of them is judged like the callback
 	ok := true
 	dinfo := c.DeclPkg(d).TypesInfo
 	ast.Inspect(d.Body, func(k ast.Node) bool {
